@@ -19,7 +19,12 @@ RULE = ('one call of a separation helper per case on real Stream / MultiStream o
         'call replaced by a table-driven (conserving or arbitrary) split, efficiencies, top_chemical, multi_stream with the '
         'right and wrong phases, phase_split, chemical_splits, material_balance(flow) with the real np.linalg solver '
         '(arguments A, b recorded and compared, contract A x = b checked on the returned x), the two-component closed form of '
-        'binary_phase_fraction.phase_fraction and the Rachford-Rice residual function. In the real-solver stream only '
+        'binary_phase_fraction.phase_fraction and the Rachford-Rice residual function; material_balance(composition) on targets '
+        'built from a positive scaling of the inlets (feasible) or arbitrary ones, every pass of its while loop recorded (A, b, x), '
+        'the loop replayed in the model with the recorded answers (right-hand side of every pass, stop test, shift of negative factors, '
+        'final scaling compared; contract A x = b checked every pass), TypeError / AttributeError / ValueError entries; partition '
+        '(a third of the cases), lle and vle with top or bottom being the feed object itself or a Stream linked with it (shared flow vector); the real-solver stream also with ONE '
+        'equilibrium chemical. In the real-solver stream only '
         'flx.find_bracket / IQ_interpolation is an oracle: phase_fraction / solve_phase_fraction_Rashford_Rice (exits on '
         'the range of K guarded by the forced fractions, bracket ends, sign tests, as_valid_fraction) are modelled, the '
         'value the numeric stage returned is recorded and handed to the model, with many cases having every K on one side of 1 '
@@ -39,8 +44,13 @@ ASSUMPTIONS = [
     'the contract rowL + rowl = feed (rowg + rowl = feed)',
     'oracle: np.linalg.solve / lstsq with the contract A x = b (checked on every returned x in the correspondence)',
     'oracle: Stream.rho (density of a phase) is an arbitrary function in the theorems; the stub package value is used in the correspondence',
-    'feed, top and bottom of partition / lle / vle are distinct objects (aliasing of outlets with the feed is not modelled; '
-    'mix_and_split aliasing is covered by the correspondence)',
+    'in-place calls (top or bottom of partition / lle / vle IS the feed object) are modelled as the code behaves (live reference '
+    'feed_mol in partition, mixing computed from the overwritten feed in lle) and compared on every run; the property text does not '
+    'name them, so what the faithful model refutes (C20_partition_top_is_feed_refuted, C20_partition_bottom_is_feed_refuted, '
+    'C20_lle_outlet_is_feed_refuted) is a proposed finding: WITNESS_CANDIDATES become WITNESSES once listed in known_findings.txt; '
+    'outlets that merely share data with the feed through Stream.link_with / proxies are not modelled',
+    'material_balance(composition): the while loop is modelled with fuel (number of recorded solver calls + 1); the theorem is about every '
+    'terminating run; divergence (NaN factors after overflow) is outside the generator',
     'SparseVector division rule used by chemical_splits is probed at start-up (present heuristic or raise-on-any-zero-divisor); '
     'the theorem holds for both',
 ]
@@ -49,7 +59,8 @@ TRUSTED = ['model coq/C20/Model.v is hand-written from thermosteam/separations.p
            'the real-flash cases rely on the lever-rule repair of /repo commit dd55412 (vapour clipped to the material present); C20_1..6 are applied in /repo',
     'the model follows the source with pending_fixes/C20_1..6 applied; on a tree without them the CORPUS cases '
            'reproduce each defect (mismatch + direct oracle message)',
-           'material_balance(balance="composition") (iteration to convergence) and MultiStageEquilibrium are not modelled']
+           'MultiStageEquilibrium is not modelled; vle with an outlet that is the feed uses the same model as the call with separate '
+           'outlets (the flash runs on a copy and the feed is not read after the first write): established by the correspondence only']
 CASE_TIMEOUT = 60
 
 IDS = ['Water', 'A_', 'B_', 'C_', 'D_', 'E_']
@@ -274,7 +285,7 @@ def gen_partition(rng, real=False, fn='partition'):
     raise RuntimeError('gen_partition')
 
 def gen_partition1(rng, real=False, fn='partition'):
-    nid = rng.choice([1, 2, 2, 3, 3, 4]) if not real else rng.choice([2, 2, 3, 4])
+    nid = rng.choice([1, 2, 2, 3, 3, 4]) if not real else rng.choice([1, 1, 2, 2, 3, 4])
     perm = rng.sample(range(N), N)
     ids = perm[:nid]
     rest = perm[nid:]
@@ -329,6 +340,11 @@ def gen_partition1(rng, real=False, fn='partition'):
     if fn == 'partition':
         c['top0'] = maybe_empty(rng, 0.6)
         c['bot0'] = maybe_empty(rng, 0.75)
+        # one outlet IS the feed object (in-place partition); 'o0' is what the other outlet held
+        c['alias'] = rng.choice([None, None, None, 'top', 'top', 'bottom'])
+        if c['alias']:
+            c['o0'] = c['bot0'] if c['alias'] == 'top' else c['top0']
+            c['share'] = rng.choice(['same', 'link'])      # the very object, or another Stream linked to it (shared flow vector)
     return c
 
 def rho_exact(row):
@@ -386,6 +402,8 @@ def gen_lle(rng):
              'top_chemical': rng.choice([None, None, 'A_', 'Water']), 'eff': fl(eff), 'ms': ms,
              'top0': maybe_empty(rng), 'bot0': maybe_empty(rng)}
         eq_extras(rng, c, feed, L)
+        c['alias'] = rng.choice([None, None, None, 'top', 'bottom'])      # one outlet IS the feed object
+        c['share'] = rng.choice(['same', 'link'])                       # ... or a Stream linked to it (shared flow vector)
         return c
     raise RuntimeError('gen_lle')
 
@@ -396,6 +414,8 @@ def gen_vle(rng):
          'ms': rng.choice([None, 'lg', 'lg']), 'top0': maybe_empty(rng), 'bot0': maybe_empty(rng),
          'spec': rng.choice([{'V': 0.5, 'P': 101325.}, {'T': 320., 'P': 101325.}, {'P': 101325., 'Q': 0.}])}
     eq_extras(rng, c, feed, g)
+    c['alias'] = rng.choice([None, None, 'top', 'bottom'])      # one outlet IS the feed object
+    c['share'] = rng.choice(['same', 'link'])
     return c
 
 def gen_phase_split(rng):
@@ -525,6 +545,70 @@ def gen_balance(rng):
         return c
     raise RuntimeError('gen_balance')
 
+def comp_sim(ids, vin, cin, cout, maxit=30):
+    """float replay of the while loop of material_balance(balance='composition'); number of passes, or None when it does
+    not settle within maxit passes, leaves the finite numbers, or a stop test is too close to its threshold"""
+    try:
+        with np.errstate(all='raise'):
+            A_ = np.array(vin, float).T; A = A_[ids, :]
+            mol_out = np.sum(np.array(cout, float), 0); Fo = mol_out.sum()
+            f = (mol_out / Fo if Fo else mol_out)[ids]
+            g_ = np.sum(np.array(cin, float), 0); O = g_.sum() * f - g_[ids]
+            xg = np.ones(len(ids)); shifted = False
+            for it in range(maxit):
+                x = np.linalg.solve(A, (A_ * xg).sum() * f + O)
+                if (x < 0).any():
+                    x = x - x[x < 0].min(); shifted = True
+                den = xg.copy(); den[den == 0] = 1.
+                m = float((((x - xg) / den) ** 2).sum())
+                if not np.isfinite(m) or abs(m - 1e-6) < 1e-8 or np.abs(x).max() > 1e6:
+                    return None
+                xg = x
+                if m <= 1e-6:
+                    return it + 1, shifted
+    except (FloatingPointError, np.linalg.LinAlgError, ValueError):
+        return None
+    return None
+
+def gen_balance_comp(rng):
+    """material_balance(balance='composition'): the outlets usually have the composition that some positive scaling x*
+    of the variable inlets gives (a feasible target), sometimes an arbitrary one"""
+    for _ in range(400):
+        k = rng.choice([1, 2, 2, 3])
+        ids = rng.sample(range(N), k)
+        vin = []
+        for j in range(k):
+            v = [0.] * N
+            v[ids[j]] = fl(rng.choice([F(1), F(2), F(4), F(8)]))
+            for i in ids:
+                if i != ids[j] and rng.random() < 0.3:
+                    v[i] = fl(rng.choice([F(1, 4), F(1, 2), F(1)]))
+            if rng.random() < 0.25:
+                v[rng.choice([i for i in range(N) if i not in ids])] = fl(rng.choice([F(1, 4), F(1, 2)]))
+            vin.append(v)
+        if det([[vin[j][i] for j in range(k)] for i in ids]) == 0:
+            continue
+        cin = [flows(rng, nz=rng.randint(1, 4)) for _ in range(rng.choice([1, 1, 2]))]
+        xs = [rng.choice([F(1, 2), F(1), F(2), F(3), F(4), F(8)]) for _ in range(k)]
+        mixed = [sum(x * F(v[i]) for x, v in zip(xs, vin)) + sum(F(c_[i]) for c_ in cin) for i in range(N)]
+        sc = rng.choice([F(1), F(2), F(1, 2), F(4)])
+        if rng.random() < 0.75:
+            a = rng.choice(SPLITS[2:])
+            cout = [[fl(m * sc * a) for m in mixed], [fl(m * sc * (1 - a)) for m in mixed]] if rng.random() < 0.5 else [[fl(m * sc) for m in mixed]]
+        else:
+            cout = [flows(rng) for _ in range(rng.choice([1, 2]))]
+        c = {'fn': 'balance_comp', 'ids': ids, 'vin': vin, 'cin': cin, 'cout': cout, 'is_exact': rng.random() < 0.7}
+        r = rng.random()
+        if r < 0.04: c['vin'] = []
+        elif r < 0.08: c['cin'] = []
+        elif r < 0.12: c['cout'] = []
+        else:
+            sim = comp_sim(ids, vin, cin, cout)
+            if sim is None:
+                continue
+        return c
+    raise RuntimeError('gen_balance_comp')
+
 KBIN = [F(2) ** k for k in range(-6, 7)] + [F(1), F(1) + F(1, 2 ** 20), F(1) - F(1, 2 ** 20), F(1) + F(1, 2 ** 40),
                                             F(1) - F(1, 2 ** 40), F(3, 2), F(3, 4)]
 
@@ -602,7 +686,7 @@ GENS = [('mix_hist', gen_mix_hist, 10), ('binary', gen_binary, 4), ('rr', gen_rr
         ('partition', gen_partition, 16), ('partition_real', lambda r: gen_partition(r, real=True), 8),
         ('phase_fraction', lambda r: gen_partition(r, real=r.random() < 0.4, fn='phase_fraction'), 4),
         ('lle', gen_lle, 10), ('vle', gen_vle, 5), ('phase_split', gen_phase_split, 5),
-        ('splits', gen_splits, 6), ('balance', gen_balance, 8)]
+        ('splits', gen_splits, 6), ('balance', gen_balance, 8), ('balance_comp', gen_balance_comp, 8)]
 
 def gen_cases(rng, tier):
     n = 330 if tier == 'quick' else 4000
@@ -809,6 +893,15 @@ def eq_table(case, pa, pb):
         return lambda total: (s_ * total, total - s_ * total, pa, pb)
     return {pa: case[pa], pb: case[pb]}
 
+def shared_with(feed, case):
+    """the outlet of an in-place call: the feed object itself, or a fresh Stream linked with it (link_with: same flow
+    vector, thermal condition and phase)"""
+    if case.get('share') == 'link':
+        s = mkstream([0.] * N)
+        s.link_with(feed)
+        return s
+    return feed
+
 def build_ms(case):
     tmo = env()['tmo']
     if not case['ms']:
@@ -867,6 +960,8 @@ def run_impl(case):
     if fn in ('partition', 'phase_fraction'):
         feed = mkstream(case['feed'])
         top = mkstream(case.get('top0', [0.] * N)); bot = mkstream(case.get('bot0', [0.] * N))
+        if case.get('alias') == 'top': top = shared_with(feed, case)
+        if case.get('alias') == 'bottom': bot = shared_with(feed, case)
         with PhiRecorder(case['phi']) as rec, RRRecorder() as rr:
             c = Catch().run(lambda: call_partition(case, feed, top, bot))
         return {'top': arr(top), 'bot': arr(bot), 'feed_after': arr(feed), 'err': c.err, 'warns': c.warns,
@@ -874,6 +969,8 @@ def run_impl(case):
     if fn == 'lle':
         feed = mkstream(case['feed'], case['feed_phase'])
         top = mkstream(case['top0']); bot = mkstream(case['bot0'])
+        if case.get('alias') == 'top': top = shared_with(feed, case)
+        if case.get('alias') == 'bottom': bot = shared_with(feed, case)
         ms = build_ms(case)
         with EqStub('LLE', eq_table(case, 'L', 'l')) as st:
             c = Catch().run(lambda: S.lle(feed, top, bot, case['top_chemical'], case['eff'], ms))
@@ -885,6 +982,8 @@ def run_impl(case):
     if fn == 'vle':
         feed = mkstream(case['feed'], case['feed_phase'])
         top = mkstream(case['top0']); bot = mkstream(case['bot0'])
+        if case.get('alias') == 'top': top = shared_with(feed, case)
+        if case.get('alias') == 'bottom': bot = shared_with(feed, case)
         ms = build_ms(case)
         with EqStub('VLE', eq_table(case, 'g', 'l')) as st:
             c = Catch().run(lambda: S.vle(feed, top, bot, multi_stream=ms, **case['spec']))
@@ -932,6 +1031,15 @@ def run_impl(case):
         ids = tuple(IDS[i] for i in case['ids'])
         with SolveRecorder() as rec:
             c = Catch().run(lambda: S.material_balance(ids, vin, cin, cout, case['is_exact'], case['balance']))
+        return {'vin': [arr(s) for s in vin], 'err': c.err, 'calls': rec.calls,
+                'const_kept': [arr(s) for s in cin + cout] == case['cin'] + case['cout']}
+    if fn == 'balance_comp':
+        vin = [mkstream(v) for v in case['vin']]
+        cin = [mkstream(v) for v in case['cin']]
+        cout = [mkstream(v) for v in case['cout']]
+        ids = tuple(IDS[i] for i in case['ids'])
+        with SolveRecorder() as rec:
+            c = Catch().run(lambda: S.material_balance(ids, vin, cin, cout, case['is_exact'], 'composition'))
         return {'vin': [arr(s) for s in vin], 'err': c.err, 'calls': rec.calls,
                 'const_kept': [arr(s) for s in cin + cout] == case['cin'] + case['cout']}
     if fn == 'mix_hist':
@@ -1078,6 +1186,12 @@ def coq_case(case, out):
                   f'{cbool(case["strict"])}')
         args = f'args_eqb (pf_args {qlist(case["feed"])} {idx(case["ids"])} {idx(case["topc"])} {idx(case["botc"])}) {obs_args}'
         feed_kept = cbool(out['feed_after'] == case['feed'])
+        if fn == 'partition' and case.get('alias'):
+            # the outlet that is the feed shows the feed's final content; nothing else to compare on the feed
+            return (f'(pres_eqb (partition_alias {pf} {cbool(case["alias"] == "bottom")} {qlist(case["feed"])} '
+                    f'{qlist(case["o0"])} {idx(case["ids"])} {qlist(case["K"])} {idx(case["topc"])} {idx(case["botc"])} '
+                    f'{cbool(case["strict"])}) {qlist(out["top"])} {qlist(out["bot"])} {phi_res} {cnat(out["warns"])} '
+                    f'&& {args})')
         if fn == 'partition':
             return (f'(pres_eqb (partition {pf} {qlist(case["feed"])} {qlist(case["top0"])} '
                     f'{qlist(case["bot0"])} {idx(case["ids"])} {qlist(case["K"])} {idx(case["topc"])} {idx(case["botc"])} '
@@ -1092,6 +1206,12 @@ def coq_case(case, out):
         ms0, k, seen_ok = ms_model(case, out, 'L' if case['feed_phase'] == 'L' else 'l')
         if 'ms_total' in out and case.get('eq_mode') == 'rel':
             ms_ok = ms_ok and out['ms_total'] == case['feed']      # the caller's multi_stream holds the feed, nothing else
+        if case.get('alias'):
+            o0 = case['bot0'] if case['alias'] == 'top' else case['top0']
+            return (f'(eqres_eqb (lle_ms_alias (rho_stub {qlist(MWS)} {qlist([F(m) / F(r) for m, r in zip(MWS, RHOS)])}) '
+                    f'{eq_term(case, "L")} {cnat(extra)} {ms0} {cnat(k)} {cbool(case["alias"] == "bottom")} {qlist(case["feed"])} '
+                    f'{qlist(o0)} {cbool(case["top_chemical"] is not None)} {q(case["eff"])}) '
+                    f'{qlist(out["top"])} {qlist(out["bot"])} {coerr(out["err"])} && {seen_ok} && {cbool(ms_ok)})')
         return (f'(eqres_eqb (lle_ms (rho_stub {qlist(MWS)} {qlist([F(m) / F(r) for m, r in zip(MWS, RHOS)])}) '
                 f'{eq_term(case, "L")} {cnat(extra)} {ms0} {cnat(k)} {qlist(case["feed"])} '
                 f'{qlist(case["top0"])} {qlist(case["bot0"])} {cbool(case["top_chemical"] is not None)} {q(case["eff"])}) '
@@ -1101,7 +1221,7 @@ def coq_case(case, out):
         ms0, k, seen_ok = ms_model(case, out, case['feed_phase'])
         return (f'(pair_approxb (vle_ms {eq_term(case, "g")} {ms0} {cnat(k)} {qlist(case["feed"])}) '
                 f'{qlist(out["top"])} {qlist(out["bot"])} && {seen_ok} '
-                f'&& {cbool(out["err"] is None and out["phases"] == ["g", "l"] and out["feed_after"] == case["feed"])})')
+                f'&& {cbool(out["err"] is None and out["phases"] == ["g", "l"] and (bool(case.get("alias")) or out["feed_after"] == case["feed"]))})')
     if fn == 'phase_split':
         exp = f'(Err {cerr(out["err"])})' if out['err'] else f'(Ok {clist(out["outs"], qlist)})'
         ok = True
@@ -1147,6 +1267,20 @@ def coq_case(case, out):
     if fn == 'rr':
         return (f'(qapproxb (rr_objective {q(case["phi"])} {qlist(case["z"])} {qlist(case["K"])} {q(case["za"])} '
                 f'{q(case["zb"])}) {q(out["val"])} && {cbool(out["err"] is None)})')
+    if fn == 'balance_comp':
+        calls = out['calls']
+        table = clist([f'(Ok {qlist(c_[3])})' if len(c_) == 4 else f'(Err {cerr(out["err"])})' for c_ in calls])
+        solve = f'(fun (k : nat) (_ : list vec) (_ : vec) => nth k {table} (Err EOther))'
+        m = (f'(material_balance_comp {solve} {cnat(N)} {idx(case["ids"])} {clist(case["vin"], qlist)} '
+             f'{clist(case["cin"], qlist)} {clist(case["cout"], qlist)} {cnat(len(calls) + 1)})')
+        if out['err']:
+            t = f'(comp_err_eqb {m} {cerr(out["err"])} && {cbool(out["vin"] == case["vin"])}'
+        else:
+            t = f'(comp_res_eqb {m} {clist(out["vin"], qlist)} {clist([c_[2] for c_ in calls], qlist)}'
+            A = f'(mb_matrix {idx(case["ids"])} {clist(case["vin"], qlist)})'
+            for c_ in calls:          # what the solver was given and its contract A x = b, every pass
+                t += f' && vlist_approxb {A} {clist(c_[1], qlist)} && vapproxb (matvec {A} {qlist(c_[3])}) {qlist(c_[2])}'
+        return t + f' && {cbool(out["const_kept"])})'
     if fn == 'balance':
         calls = out['calls']
         if len(calls) > 1:
@@ -1202,7 +1336,7 @@ def nontrivial(case, out):
         return any(any(r) for r in out['outs'])
     if fn == 'splits':
         return any(out['val'])
-    if fn == 'balance':
+    if fn in ('balance', 'balance_comp'):
         return out['vin'] != case['vin']
     return False
 
@@ -1252,8 +1386,14 @@ def classify(case, out):
     if fn == 'lle':
         ks.append('ms:' + str(case['ms']))
         ks.append('eff<1' if case['eff'] < 1 else 'eff>=1')
-    if fn == 'balance':
+    if fn in ('balance', 'balance_comp'):
         ks.append('is_exact:' + str(case['is_exact']))
+    if fn == 'balance_comp' and not out.get('err'):
+        ks.append(f'passes:{min(len(out["calls"]), 9)}')
+        if any(min(c_[3]) < 0 for c_ in out['calls'] if len(c_) == 4):
+            ks.append('shifted-to-feasible')
+    if fn in ('partition', 'lle', 'vle') and case.get('alias'):
+        ks.append('outlet-is-feed:' + case['alias'] + (':linked' if case.get('share') == 'link' else ''))
     if fn == 'mix_split' and case['alias']:
         ks.append('alias:' + case['alias'])
     if fn == 'mix_split' and case.get('top_phases'):
@@ -1277,6 +1417,14 @@ def vadd(*vs):
 
 def nonneg(v, tol=1e-12):
     return all(x >= -tol for x in v)
+
+def inplace_reported(key):
+    """In-place calls (an outlet IS the feed) are not named by the property text.  What the faithful model refutes for them
+    is reported by the direct oracle once the finding is listed in known_findings.txt (then the witness is replayed on every
+    run), and in the oracle self-test (VERIF_ORACLE_SELFTEST) so that the proposal is visible; otherwise the search step is
+    not diverted to these inputs when something else broke."""
+    import os
+    return bool(os.environ.get('VERIF_ORACLE_SELFTEST')) or key in _listed_findings()
 
 def oracle(case):
     """The C20 clauses evaluated directly on the implementation.  Returns a message or None."""
@@ -1462,6 +1610,18 @@ def oracle(case):
                 return f'phase_fraction: returned {out["phi"]}, partition returns {ref["phi"]} ({ref["err"]})'
             return None
         feed, top, bot = case['feed'], out['top'], out['bot']
+        if case.get('alias') == 'bottom':
+            # in-place call, the bottom outlet IS the feed (proposed finding, C20_partition_bottom_is_feed_refuted)
+            if inplace_reported('C20:partition-bottom-is-feed') and not close(vadd(top, bot), feed):
+                return (f'partition-bottom-is-feed: partition(feed, top, bottom=feed) returned phi = {out["phi"]} but top + bottom = '
+                        f'{vadd(top, bot)} differs from the feed {feed}: the top outlet is {top}')
+            return None
+        if case.get('alias') == 'top' and any(feed[i] for i in case['botc']):
+            # in-place call, the top outlet IS the feed, a forced-bottom chemical carries flow (C20_partition_top_is_feed_refuted)
+            if inplace_reported('C20:partition-top-is-feed') and (min(top) < 0 or not close(vadd(top, bot), feed)):
+                return (f'partition-top-is-feed: partition(feed, top=feed, bottom, bottom_chemicals={[IDS[i] for i in case["botc"]]}) '
+                        f'left the negative flow {min(top)} in the top outlet without a report; top + bottom = {vadd(top, bot)}, feed {feed}')
+            return None
         if not close(vadd(top, bot), feed):
             return f'partition: top + bottom = {vadd(top, bot)} differs from the feed {feed}'
         # chemicals partition writes (equilibrium + forced) must come out non-negative whatever the outlets held;
@@ -1502,6 +1662,13 @@ def oracle(case):
         if err:
             return f'{fn}: raised {err}'
         conserving = close(vadd(a, b), case['feed'])
+        if fn == 'lle' and case.get('alias') and case['eff'] < 1:
+            # in-place call with mixing (proposed finding, C20_lle_outlet_is_feed_refuted)
+            if (inplace_reported('C20:lle-outlet-is-feed') and conserving and 0 <= case['eff']
+                    and not close(vadd(out['top'], out['bot']), case['feed'])):
+                return (f'lle-outlet-is-feed: lle(feed, {case["alias"]}=feed, efficiency={case["eff"]}): outlets add up to '
+                        f'{vadd(out["top"], out["bot"])}, the feed was {case["feed"]} (mixing is computed from the overwritten feed)')
+            return None
         if conserving and not close(vadd(out['top'], out['bot']), case['feed']):
             return f'{fn}: outlets {out["top"]} + {out["bot"]} differ from the feed {case["feed"]}'
         eff_ok = fn == 'vle' or 0 <= case['eff'] <= 1
@@ -1545,6 +1712,26 @@ def oracle(case):
         for s, mi, ai in zip(out['val'], m, case['a']):
             if mi != 0 and abs(s * mi - ai) > TOL * max(1., abs(ai)):
                 return f'chemical_splits: split * mixed = {s * mi} differs from the first stream {ai}'
+        return None
+    if fn == 'balance_comp':
+        if not case['vin'] or not case['cout'] or not case['cin']:
+            return None
+        if err:
+            return f'material_balance(composition): raised {err}'
+        if any(len(c_) == 4 and min(c_[3]) < 0 for c_ in out['calls'][-1:]):
+            return None           # infeasible target: the factors were shifted to be non-negative, the target is not met
+        tot = vadd(*(out['vin'] + case['cin'])); Fi = sum(tot)
+        mo = vadd(*case['cout']); Fo = sum(mo)
+        if min(min(v) for v in out['vin']) < 0:
+            return f'material_balance(composition): negative inlet flow {out["vin"]}'
+        for i in case['ids']:
+            if Fi > 0 and Fo > 0 and abs(tot[i] / Fi - mo[i] / Fo) > 5e-3:
+                return (f'material_balance(composition): net inlet fraction of {IDS[i]} is {tot[i] / Fi}, the outlet fraction '
+                        f'{mo[i] / Fo} (after {len(out["calls"])} passes)')
+        for v0, v1 in zip(case['vin'], out['vin']):       # each variable inlet keeps its composition
+            s0, s1 = sum(v0), sum(v1)
+            if s0 and s1 and not close([x / s0 for x in v0], [x / s1 for x in v1], 1e-7):
+                return 'material_balance(composition): a variable inlet changed composition'
         return None
     if fn == 'balance':
         if not case['vin'] or not case['cout'] or case['balance'] != 'flow' or case['singular']:
@@ -1649,4 +1836,35 @@ CORPUS = [   # minimised inputs of the defects found while building this check (
     {'fn': 'balance', 'ids': [0, 1], 'vin': [[1., 1., 0., 0., 0., 0.], [0., 1., 2., 0., 0., 0.]], 'cin': [[4., 0., 0., 1., 0., 0.]],
      'cout': [[16., 8., 2., 0., 0., 0.], [0., 4., 0., 0., 1., 0.]], 'is_exact': False, 'balance': 'flow', 'singular': False},
 ]
-WITNESSES = []
+# Witnesses of the `_refuted` theorems of the second deepening round (outlet IS the feed).  They are replayed on every run as
+# soon as their `finding:` line is listed in known_findings.txt (read only here); until then they are proposals, so that the
+# check of the unchanged repository stays silent about inputs the property text does not name (in-place calls).
+WITNESS_CANDIDATES = [
+    {'key': 'C20:partition-top-is-feed',
+     'case': {'fn': 'partition', 'feed': [4., 2., 1., 1., 3., 0.], 'ids': [0, 1], 'K': [2., 0.5], 'topc': [2], 'botc': [3],
+              'strict': False, 'phi': 0.5, 'malformed': None, 'top0': Z6, 'bot0': Z6, 'alias': 'top', 'o0': Z6}},
+    {'key': 'C20:partition-bottom-is-feed',
+     'case': {'fn': 'partition', 'feed': [4., 2., 1., 1., 3., 0.], 'ids': [0, 1], 'K': [2., 0.5], 'topc': [], 'botc': [],
+              'strict': False, 'phi': 0.5, 'malformed': None, 'top0': Z6, 'bot0': Z6, 'alias': 'bottom', 'o0': Z6}},
+    {'key': 'C20:lle-outlet-is-feed',
+     'case': {'fn': 'lle', 'feed': [2., 4., 0., 0., 0., 0.], 'feed_phase': 'l', 'L': [1., 1., 0., 0., 0., 0.], 'l': [1., 3., 0., 0., 0., 0.],
+              'top_chemical': 'A_', 'eff': 0.5, 'ms': None, 'top0': Z6, 'bot0': Z6, 'eq_mode': 'abs', 'split': [0.5, 0.25, 0., 0., 0., 0.],
+              'ms0': None, 'alias': 'top'}},
+]
+
+_listed_cache = []
+def _listed_findings():
+    import os, re
+    if _listed_cache:
+        return _listed_cache[0]
+    path = os.path.join(os.path.dirname(os.path.dirname(os.path.abspath(__file__))), 'known_findings.txt')
+    keys = set()
+    if os.path.exists(path):
+        for line in open(path):
+            m = re.match(r'^finding:\s+property=C20\s+key=(\S+)\s', line.strip() + ' ')
+            if m:
+                keys.add(m.group(1))
+    _listed_cache.append(keys)
+    return keys
+
+WITNESSES = [w for w in WITNESS_CANDIDATES if w['key'] in _listed_findings()]
